@@ -590,6 +590,15 @@ BD_Shape<T>::concatenate_assign(const BD_Shape& y) {
     return;
   }
 
+  // If `y' is a (marked) empty BDS, the concatenation is empty too:
+  // the matrix of `y' is meaningless and must not be copied.
+  if (y.marked_empty()) {
+    add_space_dimensions_and_embed(y_space_dim);
+    set_empty();
+    PPL_ASSERT(OK());
+    return;
+  }
+
   // If `x' is an empty 0-dim space BDS, then it is sufficient to adjust
   // the dimension of the vector space.
   if (x_space_dim == 0 && marked_empty()) {
